@@ -1,6 +1,8 @@
 SPECIFICATION Spec
 CONSTANTS
   MaxLen <- MC_MaxLen
+  Efforts <- MC_Efforts
+  Slim <- MC_Slim
 CONSTRAINT Export
 PROPERTY Frame
 PROPERTY KeepsOld
